@@ -479,6 +479,14 @@ func (in *interp) convert(fr *frame, ce *ast.CallExpr, max *big.Int) (value, err
 		return nil, err
 	}
 	if x, ok := v.(*Val); ok && max != nil && x.hi.Cmp(max) > 0 {
+		// a narrowing conversion to an n-bit unsigned type keeps the low n bits: x = 2^n * (x >> n) + r, the result is r
+		// (the same decomposition the right shift introduces)
+		if n := max.BitLen(); x.lo.Sign() >= 0 && new(big.Int).Add(max, big1).Cmp(new(big.Int).Lsh(big1, uint(n))) == 0 && n < 64 {
+			t, err := in.opShr(x, in.constInt(int64(n)))
+			if err == nil && t.org != nil && t.org.op == "shr" && len(t.org.args) == 2 {
+				return t.org.args[1], nil
+			}
+		}
 		return nil, in.unsupported(ce, fmt.Sprintf("narrowing conversion of a value with range [%s,%s]", x.lo, x.hi))
 	}
 	if s, ok := v.(*sliceVal); ok && isTypeExpr(ce.Fun) {
